@@ -33,6 +33,10 @@ func Check(v any) error {
 		return errors.New("jsonapi: struct doesn't have an ID field")
 	}
 
+	if idField.Type.Kind() != reflect.String {
+		return errors.New("jsonapi: ID field is not a string")
+	}
+
 	resType := idField.Tag.Get("api")
 	if resType == "" {
 		return errors.New("jsonapi: ID field's api tag is empty")
